@@ -16,7 +16,8 @@ DECIDES = ("Decided: (a) a translator object is back in its initial state when v
            "attribute written outside __init__ is re-initialised in _reset_state with the expression __init__ uses and "
            "visit_program calls _reset_state on every path after storing the result; Kotlin/Scala: may-dirty analysis of "
            "every attribute through all visitors with save/restore recognition and the child-kind table of the IR; "
-           "(b) no store in the call-graph closure of the four translators can reach the program (effect summaries); "
+           "(b) no store in the call-graph closure of the four translators can reach the program (effect summaries), and "
+           "the translators' own methods mutate none of their parameters (options dict included); "
            "(c) the text does not depend on ambient state: no time/environment/identity/hash calls in the closure, random "
            "numbers are drawn only inside Program.get_types() whose result flows only into parameters that are never "
            "read, and the only set that is iterated holds ints.")
